@@ -410,7 +410,9 @@ func (c *client) sendErrorToAllAndStopReadLoop(err error) {
 func (c *client) handleWorkDoneMessage(runtimeMessage DecodedRuntimeMessage) {
 	var doneMessage WorkDoneMessage
 	var result ExecutionResult
-	if err := cbor.Unmarshal(runtimeMessage.RawMessageData, &doneMessage); err != nil {
+	// Decode with the client's strict mode, like the envelope and the v1 work done message: a payload with other
+	// fields (for example an error message whose message ID was corrupted into "work done") is not a result.
+	if err := c.decMode.Unmarshal(runtimeMessage.RawMessageData, &doneMessage); err != nil {
 		c.logger.Errorf("Failed to decode work done message (%v) for run ID '%s' ", err, runtimeMessage.RunID)
 		result = NewErrorExecutionResult(fmt.Errorf("failed to decode work done message (%w)", err))
 	} else {
